@@ -471,8 +471,7 @@ func (e *EdgeQuery) findEdgesInternal(target distanceTarget, opts *queryOptions)
 	// The target is told the max error of every call, including zero: a target
 	// that keeps state of its own (a ShapeIndex target has a private query)
 	// must not carry the max error of an earlier call into this one.
-	targetUsesMaxError := e.target.setMaxError(opts.maxError) &&
-		opts.maxError != target.distance().zero().chordAngle()
+	targetUsesMaxError := e.target.setMaxError(opts.maxError) && opts.maxError != 0
 
 	// Note that we can't compare maxError and distanceLimit directly
 	// because one is a Delta and one is a Distance. Instead we subtract them.
